@@ -1501,6 +1501,16 @@ def m_notnan_into_inner(ex, st, callee, args, dest_ty, frame, depth):
     return _ret(st, ex.agg_field(st, v, 0, "f64"))
 
 
+def m_notnan_neg(ex, st, callee, args, dest_ty, frame, depth):
+    """<NotNan<f64> as Neg>::neg: the wrapper around the negated float (the negation of a non-NaN is not NaN)"""
+    v = args[0]
+    if isinstance(v, Ref) or (isinstance(v, Lazy) and is_ref(v.ty)):
+        c, p = ex.deref_target(st, v)
+        v = ex.read(st, c, p)
+    x = ex.agg_field(st, v, 0, "f64")
+    return _ret(st, Agg("ordered_float::NotNan<f64>", {0: Prim("f64", z3.fpNeg(x.e))}))
+
+
 def m_panic(ex, st, callee, args, dest_ty, frame, depth):
     msg = args[0].s if args and isinstance(args[0], StrConst) else callee
     return [(st, Outcome("panic", msg=msg))]
@@ -1790,6 +1800,7 @@ DEFAULT_MODELS = [
     (_rx(r" as (std::convert::)?From<.*>>::from$"), m_from_same),
     (_rx(r"^NotNan::<f64>::new$"), m_notnan_new),
     (_rx(r"^NotNan::<f64>::into_inner$"), m_notnan_into_inner),
+    (_rx(r"^<&?NotNan<f64> as Neg>::neg$"), m_notnan_neg),
     (_rx(r"^(std::rt::|core::panicking::)?(panic|panic_fmt|begin_panic|panic_display|panic_explicit)\b|::expect_failed$|::unwrap_failed$|^(core::)?panicking::panic"), m_panic),
     (_rx(r"^(std::mem::|core::mem::)?drop::<| as (std::ops::)?Drop>::drop$"), m_drop),
     (_rx(r"<impl f64>::(is_nan|is_normal|is_infinite|is_finite|abs)$"), m_fp_method),
